@@ -8,3 +8,8 @@ package math
 // ---- determinism and thread-compatibility (C03, C05): the package keeps no state of its own
 // between calls -- no function writes a package-level variable
 //@ globals_readonly [C03,C05] none
+
+// ---- C10: the floating-point functions of the math module are Go's math package (assumed to
+// implement IEEE 754 / C99 semantics), not re-implementations; degrees and radians are the two
+// one-line conversions defined here
+//@ delegates [C10] newUnaryBuiltin newBinaryBuiltin : math except degrees radians
